@@ -158,17 +158,26 @@ def report_functions(rep):
     return out
 
 
-def matches(rep, fn):
-    """Does the report involve function fn?  Entry points inherited from a configuration struct of package
-    avfs (orefafs.OrefaFS.SetUser) have no symbol of their own: match the struct's method."""
-    stacks = report_functions(rep)
-    for names in stacks:
-        if fn in names:
-            return True
-        meth = fn.split(".")[-1]
+def matches(rep, fn, pos=None):
+    """Does the report involve function fn?  2 = a frame of fn at source position pos (the access the
+    obligation names), 1 = fn is on one of the two stacks, 0 = no.  Entry points inherited from a
+    configuration struct of package avfs (orefafs.OrefaFS.SetUser) have no symbol of their own: match
+    the struct's method."""
+    best = 0
+    for st in rep["stacks"]:
+        for fr in st["frames"]:
+            n = sym2name(fr[0])
+            if n == fn:
+                best = max(best, 1)
+                if pos and fr[1] and fr[1].endswith(pos):
+                    return 2
+    if best:
+        return best
+    meth = fn.split(".")[-1]
+    for names in report_functions(rep):
         if any(n.startswith("avfs.") and n.endswith("." + meth) for n in names[:1]) and meth.startswith("Set"):
-            return True
-    return False
+            return 1
+    return 0
 
 
 def side():
@@ -197,7 +206,9 @@ def focus_ops(fn, what, known_ops):
     if any("Volume" in x for x in ops):
         ops += [x for x in known_ops if x.startswith("win:")]
     if what.endswith("CurUserFn.user"):
-        ops += [x for x in known_ops if x.endswith(".SetUser") and x.split(".")[0] == what.split(".")[0]]
+        ops += [x for x in known_ops if x.split(".")[-1] in ("SetUser", "User", "Mkdir") and x.split(".")[0] == what.split(".")[0]]
+    if what.endswith("IdmFn.idm"):
+        ops += [x for x in known_ops if x.split(".")[-1] in ("SetIdm", "Idm") and x.split(".")[0] == what.split(".")[0]]
     if what.endswith("CurDirFn.curDir"):
         ops += [x for x in known_ops if x.split(".")[-1] in ("Abs", "Chdir", "Getwd", "Stat") and x.split(".")[0] == what.split(".")[0] and "File" not in x]
     return sorted(set(ops))
@@ -234,17 +245,26 @@ class Racer:
         ops = focus_ops(fn, what, self.ops)
         if not ops:
             return None, {"ops": []}, 0
+        pos = None
+        for f in side().get("failures", []):
+            if f["fn"] == fn and f["what"] == what and re.search(r":\d+$", f.get("pos", "")) and f["pos"].count(":") == 1:
+                pos = f["pos"]
         t0 = time.time()
         tried = 0
-        sc = {}
+        sc, best = {}, (None, {})
         for i, (dur, g) in enumerate([("300ms", 4), ("700ms", 8), ("1500ms", 16), ("3s", 8), ("5s", 16)]):
-            if time.time() - t0 > budget_s:
+            if time.time() - t0 > budget_s or (best[0] is not None and i >= 2):
                 break
             reps, sc = self.run(ops, self.ctx.seed + i, dur, g)
             tried += 1
             for r in reps:
-                if matches(r, fn):
+                m = matches(r, fn, pos)
+                if m == 2:
                     return r, sc, tried
+                if m == 1 and best[0] is None:
+                    best = (r, sc)
+        if best[0] is not None:
+            return best[0], best[1], tried
         return None, sc, tried
 
 
